@@ -69,19 +69,21 @@ theorem gen_constants :
     Gen.C12.retryInit + 1 ≤ 16 := by decide
 
 /-- The geometry cache is state of the Cloader OBJECT: no class-level attributes, `self.link` / `self.targets` /
-`self.protocol_version` are created in `__init__`, nothing else rebinds or clears `targets`, `open_bootloader_uri`
-only replaces `self.link`; `request_info_update` queries only uncached ids; `_internal_flash` reads the cache of
-the loader it is called on. -/
+`self.protocol_version` are created in `__init__`; besides `__init__` only `open_bootloader_uri` rebinds `targets`,
+and it does so unconditionally BEFORE it creates the new link (`self.targets = {}`, `self.mapping = None`: repair D26);
+`request_info_update` queries only uncached ids; `_internal_flash` reads the cache of the loader it is called on. -/
 theorem gen_loader_state :
     Gen.C12.cloaderClassAttrs = [] ∧
     Gen.C12.cloaderInit = ["self.link = None", "self.targets = {}", "self.protocol_version = 255"] ∧
-    Gen.C12.targetsRebinds = ["__init__"] ∧ Gen.C12.openLinkAssigns = ["self.link"] ∧
+    Gen.C12.targetsRebinds = ["__init__", "open_bootloader_uri"] ∧
+    Gen.C12.openLinkAssigns = ["self.link", "self.mapping", "self.targets"] ∧
+    Gen.C12.openLinkResets = ["self.targets = {}", "self.mapping = None"] ∧
     Gen.C12.requestInfoBody = ["if target_id not in self.targets:\n    self._update_info(target_id)",
       "if self._info_cb:\n    self._info_cb.call(self.targets[target_id])", "return self.targets[target_id]"] ∧
     Gen.C12.checkLinkTests = ["self._update_info(target_id)", "self._in_boot_cb", "self._info_cb"] ∧
     Gen.C12.checkLinkDefaults = ["255"] ∧
     Gen.C12.flashTargetInfo = ["self._cload.targets[TargetTypes.from_string(artifact.target.target)]"] :=
-  ⟨rfl, rfl, rfl, rfl, rfl, rfl, rfl, rfl⟩
+  ⟨rfl, rfl, rfl, rfl, rfl, rfl, rfl, rfl, rfl⟩
 
 /-- `_update_info`: request `(target_id, 0x10)`, resend on every timed-out receive, virtual time budget, reply test,
 layout of the reply and which field goes where, the mapping query. -/
@@ -217,52 +219,60 @@ structure StartOk (w0 : World) : Prop where
   noLoaders : w0.loaders = []
   copters : ∀ cop ∈ w0.copters, CopterOk cop.geomOf cop.proto cop
 
-/-- **The geometry used is the one reported on the connection it was read on.**  For EVERY history of operations
-(new loader objects, opening / closing links to any copter, `_update_info`, `request_info_update`,
-`check_link_and_get_info`, `_internal_flash`, in any order and interleaving over any number of loaders and copters):
-every geometry a loader holds for a target id - hence the geometry `_internal_flash` uses - is exactly what the copter
-recorded for that cache entry (the copter this loader was connected to when it read the entry) reports for that id.
-No entry ever comes from another loader object or from a copter this loader was not connected to. -/
-theorem geometry_from_own_connection (w0 : World) (h0 : StartOk w0) (fuel : Nat) (ops : List HOp)
+theorem startOk_worldOk (rp : Bool) (w0 : World) (h0 : StartOk w0) :
+    WorldOk rp (fun c t => (w0.copters[c]?).bind (·.geomOf t)) (fun c => (w0.copters[c]?).bind (·.proto)) w0 := by
+  refine ⟨?_, (by rw [h0.noLoaders]; intro ls hls; cases hls), ?_⟩
+  · intro c cop hc
+    have := h0.copters cop (List.mem_of_getElem? hc)
+    simpa [hc] using this
+  · intro c t g hgt
+    cases hc : w0.copters[c]? with
+    | none => simp [hc] at hgt
+    | some cop =>
+      simp only [hc, Option.bind_some] at hgt
+      have hwf := (h0.copters cop (List.mem_of_getElem? hc)).wf
+      simp only [Copter.geomOf, Option.map_eq_some_iff] at hgt
+      obtain ⟨ct, hf, rfl⟩ := hgt
+      obtain ⟨hm, ht, _⟩ := find_some hf
+      have := hwf ct hm
+      rw [ht] at this
+      exact ⟨this.1, this.2.2.1, this.2.2.2.1, this.2.2.2.2.1, this.2.2.2.2.2⟩
+
+/-- **Every cached geometry was reported on one of the loader's own connections** (holds for the repaired code and
+for the code before the repair D26).  For EVERY history of operations (new loader objects, opening / closing links
+to any copter, `_update_info`, `request_info_update`, `check_link_and_get_info`, `_internal_flash`, in any order and
+interleaving over any number of loaders and copters): every geometry a loader holds for a target id is exactly what
+the copter recorded for that cache entry (the copter this loader was connected to when it read the entry) reports for
+that id.  No entry ever comes from another loader object or from a copter this loader was not connected to. -/
+theorem geometry_from_own_connection (repaired : Bool) (w0 : World) (h0 : StartOk w0) (fuel : Nat) (ops : List HOp)
     (hops : ∀ op ∈ ops, op.TidOk) (k : Nat) (ls : LoaderSt)
-    (hk : (World.run fuel w0 ops).1.loaders[k]? = some ls) (key : Nat) (g : Geom)
+    (hk : (World.run repaired fuel w0 ops).1.loaders[k]? = some ls) (key : Nat) (g : Geom)
     (hg : lookupT ls.ld.targets key = some g) :
     ∃ c cop, lookupN ls.readFrom key = some c ∧ w0.copters[c]? = some cop ∧ cop.geomOf key = some g := by
-  have hw0 : WorldOk (fun c t => (w0.copters[c]?).bind (·.geomOf t)) (fun c => (w0.copters[c]?).bind (·.proto)) w0 := by
-    refine ⟨?_, (by rw [h0.noLoaders]; intro ls hls; cases hls), ?_⟩
-    · intro c cop hc
-      have := h0.copters cop (List.mem_of_getElem? hc)
-      simpa [hc] using this
-    · intro c t g hgt
-      cases hc : w0.copters[c]? with
-      | none => simp [hc] at hgt
-      | some cop =>
-        simp only [hc, Option.bind_some] at hgt
-        have hwf := (h0.copters cop (List.mem_of_getElem? hc)).wf
-        simp only [Copter.geomOf, Option.map_eq_some_iff] at hgt
-        obtain ⟨ct, hf, rfl⟩ := hgt
-        obtain ⟨hm, ht, _⟩ := find_some hf
-        have := hwf ct hm
-        rw [ht] at this
-        exact ⟨this.1, this.2.2.1, this.2.2.2.1, this.2.2.2.2.1, this.2.2.2.2.2⟩
-  have hw := run_ok fuel ops w0 hw0 hops
+  have hw := run_ok fuel ops w0 (startOk_worldOk repaired w0 h0) hops
   obtain ⟨c, hc, hgc⟩ := (hw.loaders ls (List.mem_of_getElem? hk)).aligned.lookup key g hg
   cases hcop : w0.copters[c]? with
   | none => simp [hcop] at hgc
   | some cop => exact ⟨c, cop, hc, hcop, by simpa [hcop] using hgc⟩
 
-/-- In particular: if the entry for `key` was read on the connection the loader is using now, `_internal_flash`
-runs with the geometry the connected copter reports for `key`. -/
+/-- **The geometry `_internal_flash` reads is the one reported on the CURRENT connection** (the code as it is now,
+with the repaired `open_bootloader_uri`).  After ANY history, for any loader that is connected to copter `c`: whatever
+geometry it holds for a target id - so whatever `_internal_flash` would use - is what copter `c` reports for that id.
+No stale entry survives a reconnect; no side condition on how or when the entry was read. -/
 theorem flash_uses_geometry_of_this_connection (w0 : World) (h0 : StartOk w0) (fuel : Nat) (ops : List HOp)
     (hops : ∀ op ∈ ops, op.TidOk) (k : Nat) (ls : LoaderSt)
-    (hk : (World.run fuel w0 ops).1.loaders[k]? = some ls) (key : Nat) (g : Geom)
-    (hg : lookupT ls.ld.targets key = some g) (c : Nat) (hconn : ls.conn = some c)
-    (hfresh : lookupN ls.readFrom key = ls.conn) :
+    (hk : (World.run true fuel w0 ops).1.loaders[k]? = some ls) (key : Nat) (g : Geom)
+    (hg : lookupT ls.ld.targets key = some g) (c : Nat) (hconn : ls.conn = some c) :
     ∃ cop, w0.copters[c]? = some cop ∧ cop.geomOf key = some g := by
-  obtain ⟨c', cop, h1, h2, h3⟩ := geometry_from_own_connection w0 h0 fuel ops hops k ls hk key g hg
-  rw [hfresh, hconn] at h1
-  cases h1
-  exact ⟨cop, h2, h3⟩
+  have hw := run_ok fuel ops w0 (startOk_worldOk true w0 h0) hops
+  have hls := hw.loaders ls (List.mem_of_getElem? hk)
+  obtain ⟨c', hc', hgc⟩ := hls.aligned.lookup key g hg
+  have := hls.fresh rfl (key, c') (lookupN_mem hc') c hconn
+  simp only at this
+  subst this
+  cases hcop : w0.copters[c']? with
+  | none => simp [hcop] at hgc
+  | some cop => exact ⟨cop, rfl, by simpa [hcop] using hgc⟩
 
 /-! ### the reference semantics says what the clause says -/
 
@@ -375,16 +385,20 @@ example : StartOk exWorld := by
     rcases hct with rfl | rfl <;> decide
 
 /-- two loader objects, one per copter: each reads and uses its own copter's nRF51 geometry -/
-example : (World.run 50 exWorld [.new, .openLink 0 0, .check 0, .request 0 254, .new, .openLink 1 1, .check 1,
+example : (World.run true 50 exWorld [.new, .openLink 0 0, .check 0, .request 0 254, .new, .openLink 1 1, .check 1,
       .request 1 254]).2 =
     [.unit, .unit, .bool true, .geom ⟨254, 8, 1, 30, 10⟩, .unit, .unit, .bool true, .geom ⟨254, 8, 1, 30, 14⟩] := by decide
 
-/-- **Known finding D26 (the code as it is).**  ONE loader object re-connected to a copter whose nRF51 geometry
-differs: `check_link_and_get_info` refreshes the STM32 entry, but `request_info_update(0xFE)` answers from the
-cache, so the geometry `_internal_flash` would use (start page 10) is not the one the connected copter reports (14).
-`geometry_from_own_connection` is the exact side condition: the entry is genuine for the copter it was read from. -/
+/-- ONE loader object re-connected to a copter whose nRF51 geometry differs: the repaired code re-reads (start page 14) -/
+example : (World.run true 50 exWorld [.new, .openLink 0 0, .check 0, .request 0 254, .closeLink 0, .openLink 0 1, .check 0,
+      .request 0 254]).2.getLast? = some (.geom ⟨254, 8, 1, 30, 14⟩) := by decide
+
+/-- **Finding D26 (fixed by c1a3150), the code as it was.**  With `open_bootloader_uri` keeping the cache
+(`repaired := false`), `check_link_and_get_info` refreshes the STM32 entry after the reconnect but
+`request_info_update(0xFE)` answers from the cache: the geometry `_internal_flash` would use (start page 10) is not
+the one the connected copter reports (14).  So `flash_uses_geometry_of_this_connection` fails for the old code. -/
 theorem stale_cache_counterexample :
-    (World.run 50 exWorld [.new, .openLink 0 0, .check 0, .request 0 254, .closeLink 0, .openLink 0 1, .check 0,
+    (World.run false 50 exWorld [.new, .openLink 0 0, .check 0, .request 0 254, .closeLink 0, .openLink 0 1, .check 0,
       .request 0 254]).2.getLast? = some (.geom ⟨254, 8, 1, 30, 10⟩) ∧
     (exCopter 14).geomOf 254 = some ⟨254, 8, 1, 30, 14⟩ := by decide
 
